@@ -18,4 +18,8 @@ pub assume_specification<'a, T, A: core::alloc::Allocator>[ <&'a mut Vec<T, A> a
         r.decrease() is Some,
 ;
 
+// the reflexive conversion `impl<T> From<T> for T` is the identity (so `x.into()` at the same type is `x`)
+pub assume_specification<T>[ <T as core::convert::From<T>>::from ](t: T) -> (r: T)
+    ensures r == t;
+
 } // verus!
